@@ -400,6 +400,9 @@ func (w *clockWorld) opUseTZ(s *Stream) {
 	loc, lerr := time.LoadLocation(name) // the truth under the same simulated zone database
 	w.r.SetThisValue("t0", t)
 	text := "useTimezone(t0, '" + name + "')"
+	if lerr != nil && s.Intn(3) == 0 {
+		text = "useTimezone(now(), '" + name + "')" // an evaluation that reads the clock and then fails
+	}
 	w.ops = append(w.ops, text+" on "+t.Format(time.RFC3339Nano))
 	v, err, pan := w.eval(text)
 	if lerr != nil {
